@@ -190,9 +190,19 @@ def ann_setup(eng):
     block = (named(INT, 'block_start'), named(INT, 'block_end'))
     eng.spec_env['BLOCK'] = block
 
+    hit2 = (named(INT, 'hit2_start'), named(INT, 'hit2_end'), named(STR, 'hit2_id'), named(STR, 'hit2_strand'), hit[4])
+    eng.spec_env['HIT2'] = hit2      # a second feature carrying the same data value (two exons of one gene, BED rows without data)
+
     def between(e, o, chromosome=None, sampleStart=None, sampleEnd=None, strand=None, **k):
         e.ghost['queries'].append((chromosome, sampleStart, sampleEnd, strand))
-        return [hit] if e.branch(fresh(BOOL, 'container_reports_a_hit').z) else []
+        if not e.branch(fresh(BOOL, 'container_reports_a_hit').z):
+            e.spec_env['NHITS'] = 0
+            return []
+        if e.branch(fresh(BOOL, 'container_reports_a_second_hit').z):
+            e.spec_env['NHITS'] = 2
+            return [hit, hit2]
+        e.spec_env['NHITS'] = 1
+        return [hit]
     stubs.STUBS['FeatureContainerStub'] = {'methods': {'findFeaturesBetween': between}, 'props': {}, 'setters': {}}
     eng.loader.call_hooks['singlecellmultiomics.molecule.molecule.Molecule.get_aligned_blocks'] = lambda e, f, a, k, n: [block]
 
@@ -222,11 +232,15 @@ def annotate_unit(stranded):
             'one_range_query_per_block_on_the_requested_strand':
                 'GHOST["queries"] == [("chr1", BLOCK[0], BLOCK[1], %s)]' % want,
             'reports_exactly_the_features_the_container_returned':
-                'len(self.hits) <= 1 and all(k == HIT[4] and self.hits[k] == {("chr1", (HIT[0], HIT[1]))} for k in self.hits)',
+                'len(self.hits) == (1 if NHITS > 0 else 0) and all(k == HIT[4] and '
+                '(("chr1", (HIT[0], HIT[1])) in self.hits[k]) and '
+                '(NHITS < 2 or (("chr1", (HIT2[0], HIT2[1])) in self.hits[k])) and '
+                'all((loc == ("chr1", (HIT[0], HIT[1]))) or (NHITS == 2 and loc == ("chr1", (HIT2[0], HIT2[1]))) for loc in self.hits[k]) '
+                'for k in self.hits)',
             'marked_annotated': 'self.is_annotated == True',
         },
         raises={},
-        bounded='one aligned block, at most one feature returned by the container',
+        bounded='one aligned block, at most two features (sharing their data value) returned by the container',
         assumptions=['FeatureContainer.findFeaturesBetween through a recording stub (its exactness: units above); get_aligned_blocks stubbed'],
     )
 
@@ -428,3 +442,22 @@ def nested3():
 
 
 UNITS.append(nested3())
+
+
+# ------------------------------------------------------------------------------ range queries after an add history
+# "a result never reflects a stale earlier state" for findFeaturesBetween as well: the same range asked before and after a feature
+# was added and the container re-indexed
+def history_between():
+    src = ['fc = FeatureContainer()',
+           'fc.addFeature("ctg", F[0][0], F[0][1], F[0][2], "+" if F[0][3] else "-")', 'fc.sort()',
+           'first = fc.findFeaturesBetween("ctg", a, b, strand)',
+           'fc.addFeature("ctg", F[1][0], F[1][1], F[1][2], "+" if F[1][3] else "-")', 'fc.sort()',
+           'result = fc.findFeaturesBetween("ctg", a, b, strand)', 'return result']
+    return Contract(
+        PROP, FF + '::FeatureContainer', name='history[add sort range-query add sort the same range-query]',
+        harness='\n'.join(src), params={'F': feats(2), 'a': 'int', 'b': 'int', 'strand': 'none'},
+        requires=['a <= b'], setup=lambda eng: eng.ghost.clear(), ensures=BETWEEN_SPEC, raises={},
+        bounded='2 features on one contig (symbolic coordinates/strands), the same range asked twice', max_paths=40000)
+
+
+UNITS.append(history_between())
